@@ -202,6 +202,33 @@ def match_known(pid, viol, known):
 # main
 
 
+def _try_shrink(mod, v, log, budget_s=15):
+    """greedy shrinking of a stored violation through the property's own replay function"""
+    if not hasattr(mod, "replay") or not isinstance(v.get("case"), dict) or "projects" not in v["case"]:
+        return
+    t0 = time.time()
+
+    def fails(c):
+        if time.time() - t0 > budget_s:
+            return False
+        p2 = dict(v)
+        p2["case"] = c.to_json()
+        ok, _ = mod.replay(p2)
+        return not ok
+
+    try:
+        case = core.Case.from_json(v["case"])
+        if not fails(case):
+            return  # the replay does not reproduce it from the case alone (history, second process, ...)
+        small = core.shrink_case(case, fails, max_steps=120)
+        if len(small.ballots) < len(case.ballots) or len(small.projects) < len(case.projects):
+            v["original_case"] = v["case"]
+            v["case"] = small.to_json()
+            v["shrunk"] = True
+    except Exception:  # noqa: BLE001
+        log.append(traceback.format_exc())
+
+
 def write_replay(pid, seed, payload):
     d = os.path.join(core.VERIF, "replays")
     os.makedirs(d, exist_ok=True)
@@ -314,8 +341,10 @@ def main(argv=None):
     status = 0
     replay_paths = []
     if real_viol:
-        # concrete failing inputs
-        for v in real_viol[:5]:
+        # concrete failing inputs (the first ones are shrunk: fewer voters / projects while the replay still fails)
+        for k, v in enumerate(real_viol[:5]):
+            if k < 2:
+                _try_shrink(mod, v, log)
             path = write_replay(pid, seed, v)
             replay_paths.append(path)
             print(f"VIOLATION property={pid} replay={path}")
